@@ -369,14 +369,43 @@ def check(pid, spec, tier, seed, replay, t0):
                                 "facts": {n: facts[n]["value"] for n in needs}})
             broken.append(ob)
 
-    # --- correspondence
+    # --- correspondence (streamed in batches: only disagreements and a few samples are kept)
     known = [k for k in load_known() if k["property"] == pid]
-    results = []
     dist = {}
+    mismatches = []
+    samples = []
+    nontrivial = set()
+    stats = {"n": 0, "ood": 0, "mismatch": 0}
+
+    def consume(results):
+        for r in results:
+            stats["n"] += 1
+            if isinstance(r["model"], dict) and r["model"].get("class") == "out-of-domain":
+                stats["ood"] += 1
+                continue
+            d = compare(r["kind"], r["case"], r["impl"], r["model"], spec)
+            if not d and "property_check" in spec:
+                # the implementation behaves like the model; does that behaviour satisfy the property?
+                pv = spec["property_check"](r)
+                if pv:
+                    r["signature_override"] = pv
+                    d = "property predicate fails on the implementation's own output: " + pv
+            lab = spec["label"](r) if "label" in spec else json.dumps(canon(r["model"]), sort_keys=True)
+            dist[lab] = dist.get(lab, 0) + 1
+            if spec.get("nontrivial", lambda r: True)(r):
+                nontrivial.add(hashlib.sha1((lab + "|" + json.dumps(spec.get("shape", lambda r: r["case"])(r), sort_keys=True)).encode()).digest()[:10])
+            if len(samples) < 3:
+                samples.append({"case": r["line"][:1500], "impl": r["impl"], "model": r["model"]})
+            if d:
+                stats["mismatch"] += 1
+                r["diff"] = d
+                if len(mismatches) < 400:
+                    mismatches.append(r)
+
     if replay:
         rp = json.load(open(replay))
         lines = [rp["case_line"]] if "case_line" in rp else []
-        results += run_stream(lines, spec)
+        consume(run_stream(lines, spec))
     else:
         corpus_dir = os.path.join(ROOT, "corpus", pid)
         corpus = []
@@ -384,41 +413,30 @@ def check(pid, spec, tier, seed, replay, t0):
             for f in sorted(os.listdir(corpus_dir)):
                 if f.endswith(".case"):
                     corpus += [l for l in open(os.path.join(corpus_dir, f)).read().splitlines() if l.strip() and not l.startswith("#")]
-        results += run_stream(corpus, spec)
-        n_corpus = len(corpus)
+        consume(run_stream(corpus, spec))
         widen = bool(broken)
         for st in spec.get("streams", []):
-            n = st["thorough"] if (tier == "thorough" or widen) else st["quick"]
-            lines = []
-            per = max(1, (n + 15) // 16)
-            with cf.ThreadPoolExecutor(max_workers=16) as ex:
-                for ls in ex.map(lambda i: gen_cases(st["gen"], seed * 1000 + i, per), range(16 if n >= 16 else 1)):
-                    lines += ls
-            results += run_stream(lines, spec)
-
-    mismatches = []
-    ood = 0
-    nontrivial = set()
-    for r in results:
-        if isinstance(r["model"], dict) and r["model"].get("class") == "out-of-domain":
-            ood += 1
-            continue
-        d = compare(r["kind"], r["case"], r["impl"], r["model"], spec)
-        if not d and "property_check" in spec:
-            # the implementation behaves like the model; does that behaviour satisfy the property?
-            pv = spec["property_check"](r)
-            if pv:
-                r["signature_override"] = pv
-                d = "property predicate fails on the implementation's own output: " + pv
-        lab = spec["label"](r) if "label" in spec else json.dumps(canon(r["model"]), sort_keys=True)
-        dist[lab] = dist.get(lab, 0) + 1
-        if spec.get("nontrivial", lambda r: True)(r):
-            nontrivial.add(hashlib.sha1((lab + "|" + json.dumps(spec.get("shape", lambda r: r["case"])(r), sort_keys=True)).encode()).hexdigest())
-        if d:
-            r["diff"] = d
-            mismatches.append(r)
-    if results and ood * 20 > len(results):
-        raise Machinery(f"{ood} of {len(results)} cases out of the model's domain (>5%): generator drift")
+            n = st["thorough"] if tier == "thorough" else st["quick"]
+            if widen and tier != "thorough":
+                n = min(st["thorough"], 6 * st["quick"])      # widened search after a broken obligation
+            batch = 16000
+            done = 0
+            bi = 0
+            while done < n:
+                m = min(batch, n - done)
+                per = max(1, (m + 15) // 16)
+                lines = []
+                with cf.ThreadPoolExecutor(max_workers=16) as ex:
+                    for ls in ex.map(lambda i: gen_cases(st["gen"], seed * 100000 + bi * 16 + i, per), range(16 if m >= 16 else 1)):
+                        lines += ls
+                consume(run_stream(lines, spec))
+                done += len(lines)
+                bi += 1
+                if stats["mismatch"] >= 400:
+                    break
+    ood = stats["ood"]
+    if stats["n"] and ood * 20 > stats["n"]:
+        raise Machinery(f"{ood} of {stats['n']} cases out of the model's domain (>5%): generator drift")
 
     # --- verdict
     violations = []
@@ -451,15 +469,13 @@ def check(pid, spec, tier, seed, replay, t0):
         replay_path = os.path.join(ROOT, "replays", f"{pid}-{tier}-{seed}.json")
         json.dump({"property": pid, "kind": "no-failing-input-found",
                    "obligations": [o for o in obligations if o["status"] == "broken"],
-                   "searched_cases": len(results), "seed": seed}, open(replay_path, "w"), indent=1)
+                   "searched_cases": stats["n"], "seed": seed}, open(replay_path, "w"), indent=1)
         print(f"VIOLATION property={pid} replay={replay_path} no-failing-input-found")
         rc = 1
 
     n_thm = len(names)
     n_obl = n_thm + len([o for o in obligations if o["status"] != "not-checked"])
     n_dis = n_thm + len([o for o in obligations if o["status"] == "discharged"])
-    samples = [{"case": r["line"][:1500], "impl": r["impl"], "model": r["model"]} for r in results[:2]] + \
-              [{"case": r["line"][:1500], "impl": r["impl"], "model": r["model"]} for r in results[-1:]]
     ev = {
         "property_id": pid, "tier": tier, "seed": seed, "level": spec.get("level", "proof"),
         "coverage": {
@@ -470,13 +486,13 @@ def check(pid, spec, tier, seed, replay, t0):
                              ] + spec.get("trusted", []),
             "theorems": {n: ax.get(n, []) for n in names},
             "generated_obligations": obligations,
-            "evaluations": len(results), "traces_validated_against_impl": len(results) - ood,
+            "evaluations": stats["n"], "traces_validated_against_impl": stats["n"] - ood,
             "distinct_nontrivial": len(nontrivial),
             "rule": spec.get("rule", ""),
             "distribution": dict(sorted(dist.items(), key=lambda kv: -kv[1])[:40]),
             "out_of_domain": ood,
             "samples": samples,
-            "mismatches": len(mismatches), "known_finding_hits": sorted(known_hits),
+            "mismatches": stats["mismatch"], "known_finding_hits": sorted(known_hits),
             "explanation": spec.get("explanation", ""),
         },
         "assumptions": spec.get("assumptions", []),
